@@ -57,6 +57,22 @@ def _elementwise(name):
     return f
 
 
+def _elementwise_any(name, orig):
+    def f(x, *args, **kw):
+        if isinstance(x, Sym):
+            return getattr(x, name)()
+        if _is_obj(x):
+            x = lift_array(x)
+            out = _np.empty(x.shape, dtype=object)
+            for i in _np.ndindex(*x.shape):
+                out[i] = getattr(x[i], name)()
+            return out
+        return orig(x, *args, **kw)
+
+    f.__name__ = name
+    return f
+
+
 class _Linalg(types.ModuleType):
     def __getattr__(self, k):
         return getattr(_np.linalg, k)
@@ -414,6 +430,12 @@ def _default_replacements():
     from . import spstub
 
     spstub.register(register_replacement)
+    try:
+        import scipy.special as sps
+
+        register_replacement(sps.erf, _elementwise_any("erf", sps.erf))
+    except ImportError:
+        pass
 
 
 _PREFIXES = ("felupe", "tensortrax")
